@@ -85,7 +85,7 @@ def plan(ctx):
     k = P.per_interp_shards(ctx)
     for v in ctx.producers:
         if ctx.tier == "quick":
-            cases = P.corpus_cases(ctx, v, n_files=60, n_w3=60, modes=6, max_file_bytes=100000)
+            cases = P.corpus_cases(ctx, v, n_files=250, n_w3=120, modes=30, max_file_bytes=200000)
         else:
             cases = P.corpus_cases(ctx, v, all_files=True, n_w3=1000, modes=150)
         for id_, src, opt in sweep_sources(P.pyver(v), ctx.tier, ctx.seed):
